@@ -69,6 +69,9 @@ pub struct RefStats {
     pub canons: usize,
     pub variable_targets: usize,
     pub nonempty_lens_args: usize,
+    /// a stream holds two equal values of different provenance: which of them a canon index
+    /// selects depends on the order the canonicalizing peer saw them in, and the value does not tell
+    pub equal_stream_values_of_different_provenance: bool,
 }
 
 #[derive(Clone, Debug)]
@@ -564,6 +567,13 @@ pub fn evaluate(script: &crate::gen::Script) -> RefResult {
     let status = ev.run(&script.instr);
     if let Status::Error(e) = &status {
         ev.stats.uncaught_error = Some(e.clone());
+    }
+    for vals in ev.streams.values() {
+        for (i, a) in vals.iter().enumerate() {
+            if vals[i + 1..].iter().any(|b| b.v == a.v && b.tets != a.tets) {
+                ev.stats.equal_stream_values_of_different_provenance = true;
+            }
+        }
     }
     RefResult { calls: ev.calls, canons: ev.canon_recs, status, stats: ev.stats }
 }
